@@ -131,7 +131,10 @@ def run(ctx):
     # history independence on the implementation alone: the same operands at depth 0 and at depth >= 5 after pops
     lines = []
     pairs = []
-    consuming = [c for c in cases if c[1] not in ("dup", "drop", "swap", "over", "rot")]
+    # (closures compare by the identity of their environment — the property excepts them — so how two of them compare may
+    # depend on where the allocator put them)
+    consuming = [c for c in cases if c[1] not in ("dup", "drop", "swap", "over", "rot")
+                 and not (c[1][0] in "?!" and c[1][1:] in ("eq", "ne", "lt", "gt", "le", "ge") and sum(1 for t in c[0] if t.startswith("{")) >= 2)]
     for tail, w in rng.sample(consuming, min(len(consuming), 300 if ctx.tier == "quick" else 4000)):
         a = " ".join(tail) + " " + w
         b = history(rng, rng.choice([4, 5, 6]), tail) + " " + w
